@@ -251,6 +251,21 @@ type hang struct {
 	Lookup int    `json:"lookup"`
 	What   string `json:"what"`
 	Snap   any    `json:"snap"`
+	// starvation guard: how often a 1 ms sleeper of this process got to run, and over which period
+	Ticks    int64 `json:"ticks"`
+	WindowMs int64 `json:"window_ms"`
+}
+
+var beat int64
+var beatStart = time.Now()
+
+func init() {
+	go func() {
+		for {
+			time.Sleep(time.Millisecond)
+			atomic.AddInt64(&beat, 1)
+		}
+	}()
 }
 
 var errHang = fmt.Errorf("hang")
@@ -413,6 +428,7 @@ func (lk *lookup) run(rng *rand.Rand, seed int64, idx int, concurrent bool) (err
 		}
 	}
 	quiesce := func() error {
+		mark()
 		deadline := time.Now().Add(15 * time.Second)
 		for {
 			drain()
@@ -422,7 +438,7 @@ func (lk *lookup) run(rng *rand.Rand, seed int64, idx int, concurrent bool) (err
 				return nil
 			}
 			if time.Now().After(deadline) {
-				writeHang(hang{seed, idx, "no quiescence: a query should have been started or finished", s})
+				writeHang(hang{Seed: seed, Lookup: idx, What: "no quiescence: a query should have been started or finished", Snap: s})
 				return errHang
 			}
 			time.Sleep(20 * time.Microsecond)
@@ -441,8 +457,9 @@ func (lk *lookup) run(rng *rand.Rand, seed int64, idx int, concurrent bool) (err
 	}
 	if firstGate {
 		// the loop's first pass (empty frontier) is held between unlock and select; the seeds arrive there
+		mark()
 		if !lk.holdLoop(30 * time.Second) {
-			writeHang(hang{seed, idx, "run loop never reached its first select", op.VerifSnapshot()})
+			writeHang(hang{Seed: seed, Lookup: idx, What: "run loop never reached its first select", Snap: op.VerifSnapshot()})
 			return errHang
 		}
 		op.AddNodes(randCands(1 + rng.Intn(3)))
@@ -555,11 +572,12 @@ func (lk *lookup) run(rng *rand.Rand, seed int64, idx int, concurrent bool) (err
 		if !consWaiting {
 			startCons()
 		}
+		mark()
 		select {
 		case <-consDone:
 			consWaiting = false
 		case <-time.After(30 * time.Second):
-			writeHang(hang{seed, idx, "stalled never reported although no query is in flight and nothing qualifies", op.VerifSnapshot()})
+			writeHang(hang{Seed: seed, Lookup: idx, What: "stalled never reported although no query is in flight and nothing qualifies", Snap: op.VerifSnapshot()})
 			return errHang
 		}
 		if err := quiesce(); err != nil {
@@ -573,24 +591,26 @@ func (lk *lookup) run(rng *rand.Rand, seed int64, idx int, concurrent bool) (err
 	}
 	heldQ = nil
 	stoppedOK := true
+	mark()
 	select {
 	case <-op.Stopped():
 	case <-time.After(30 * time.Second):
 		stoppedOK = false
-		writeHang(hang{seed, idx, "Stop never completed although every query returned", op.VerifSnapshot()})
+		writeHang(hang{Seed: seed, Lookup: idx, What: "Stop never completed although every query returned", Snap: op.VerifSnapshot()})
 		return errHang
 	}
+	mark()
 	select {
 	case <-lk.exit:
 	case <-time.After(30 * time.Second):
-		writeHang(hang{seed, idx, "run loop never exited after Stop", op.VerifSnapshot()})
+		writeHang(hang{Seed: seed, Lookup: idx, What: "run loop never exited after Stop", Snap: op.VerifSnapshot()})
 		return errHang
 	}
 	if consWaiting {
 		select {
 		case <-consDone:
 		case <-time.After(30 * time.Second):
-			writeHang(hang{seed, idx, "Stalled() not closed after the run loop exited", op.VerifSnapshot()})
+			writeHang(hang{Seed: seed, Lookup: idx, What: "Stalled() not closed after the run loop exited", Snap: op.VerifSnapshot()})
 			return errHang
 		}
 	}
@@ -623,7 +643,17 @@ func (lk *lookup) run(rng *rand.Rand, seed int64, idx int, concurrent bool) (err
 
 var hangPath string
 
+var markBeat, markMs int64
+
+// mark notes the start of a wait whose expiry would be reported as a hang.
+func mark() {
+	markBeat = atomic.LoadInt64(&beat)
+	markMs = int64(time.Since(beatStart) / time.Millisecond)
+}
+
 func writeHang(h hang) {
+	h.Ticks = atomic.LoadInt64(&beat) - markBeat
+	h.WindowMs = int64(time.Since(beatStart)/time.Millisecond) - markMs
 	f, _ := os.OpenFile(hangPath, os.O_APPEND|os.O_CREATE|os.O_WRONLY, 0o644)
 	b, _ := json.Marshal(h)
 	f.Write(append(b, '\n'))
